@@ -428,6 +428,18 @@ func runCheck(repo, prop, tier string, keep bool, only string, verbose bool) int
 		fmt.Printf("  failed obligation: %s (%s; %s) at %s\n", o.Name, o.Result.Status, strings.Join(o.Result.Tried, ","), o.Pos)
 		exit = 1
 	}
+	// obligations that needed a sizeable part of the time limit are the ones
+	// that may time out on a loaded machine: list them (informational)
+	var slow []string
+	for _, o := range all {
+		if !o.Canary && o.Result.Status == "unsat" && o.Result.Time > float64(timeout)/4 {
+			slow = append(slow, fmt.Sprintf("%s (%s %.1fs of %ds)", o.Name, o.Result.Solver, o.Result.Time, timeout))
+		}
+	}
+	sort.Strings(slow)
+	for _, sl := range slow {
+		fmt.Printf("SLOW: %s\n", sl)
+	}
 	if len(brokenCanaries) > 0 {
 		for _, c := range brokenCanaries {
 			fmt.Printf("BROKEN: vacuity canary proved (assumptions contradictory): %s\n", c)
